@@ -2,10 +2,12 @@ package main
 
 import (
 	"fmt"
+	"sync"
 	"time"
 
 	tally "github.com/uber-go/tally/v4"
 	"github.com/uber-go/tally/v4/multi"
+	rt "github.com/uber-go/tally/v4/verifrt"
 )
 
 // mChild is one child of a multi reporter; all children append to one shared ordered log.
@@ -15,6 +17,8 @@ type mChild struct {
 	reporting bool
 	tagging   bool
 	nalloc    int
+	obj       *rt.Obj
+	mu        *sync.Mutex
 }
 
 type mCaps struct{ r, t bool }
@@ -23,6 +27,14 @@ func (c mCaps) Reporting() bool { return c.r }
 func (c mCaps) Tagging() bool   { return c.t }
 
 func (c *mChild) add(f string, a ...interface{}) {
+	if rt.IsControlled() && !rt.Dead() && c.obj != nil {
+		c.obj.Fresh()
+		rt.Point(rt.OpRec, c.obj, nil) // a child may be slow: every call into it is a scheduling point
+	}
+	if c.mu != nil { // free-running race pass: the shared log needs a real lock
+		c.mu.Lock()
+		defer c.mu.Unlock()
+	}
 	*c.log = append(*c.log, fmt.Sprintf("child%d ", c.id)+fmt.Sprintf(f, a...))
 }
 func (c *mChild) Capabilities() tally.Capabilities { return mCaps{c.reporting, c.tagging} }
@@ -85,14 +97,16 @@ func c19Jobs(tier string) []*SeqJob {
 	db := tally.DurationBuckets{time.Second}
 	plainAlpha := []string{"counter a 1", "counter b -2", "gauge a 1.5", "gauge b -0", "timer a 3", "timer b -4",
 		"hvalue a 7", "hvalue b 8", "hduration a 9", "hduration b 10", "flush"}
+	capPattern := 0 // 0: all children tag; 1: the first does not; 2: the last does not
 	runPlain := func(n int, hist []int) (cl, det, key string, steps int) {
 		var log []string
 		var kids []tally.StatsReporter
 		ref := make([]*mChild, n)
 		var refLog []string
 		for i := 0; i < n; i++ {
-			kids = append(kids, &mChild{id: i, log: &log, reporting: true, tagging: true})
-			ref[i] = &mChild{id: i, log: &refLog, reporting: true, tagging: true}
+			tg := !((capPattern == 1 && i == 0) || (capPattern == 2 && i == n-1))
+			kids = append(kids, &mChild{id: i, log: &log, reporting: true, tagging: tg})
+			ref[i] = &mChild{id: i, log: &refLog, reporting: true, tagging: tg}
 		}
 		m := multi.NewMultiReporter(kids...)
 		call := func(r tally.StatsReporter, op string) {
@@ -280,30 +294,39 @@ func c19Jobs(tier string) []*SeqJob {
 	plain := &SeqJob{Property: "C19", Name: "plain-fan-out-histories"}
 	plain.Run = func(ctx *SeqCtx) {
 		for n := 0; n <= 5; n++ {
-			n := n
-			ctx.seen = map[string]struct{}{}
-			// no state merging for the stateless flavour: enumerate every history
-			enumSeqs(len(plainAlpha), depthP, func(seq []int) bool {
-				if ctx.Expired() {
-					return false
+			for capPattern = 0; capPattern < 3; capPattern++ {
+				if capPattern > 0 && (n == 0 || n > 3) {
+					continue
 				}
-				sq := append([]int{}, seq...)
-				var cl, det string
-				steps := 0
-				cl, det = guard(func() (string, string) { c, d, _, s := runPlain(n, sq); steps = s; return c, d })
-				ops := []string{fmt.Sprintf("children=%d", n)}
-				for _, k := range sq {
-					ops = append(ops, plainAlpha[k])
+				n := n
+				ctx.seen = map[string]struct{}{}
+				// no state merging for the stateless flavour: enumerate every history
+				enumSeqs(len(plainAlpha), depthP, func(seq []int) bool {
+					if ctx.Expired() {
+						return false
+					}
+					sq := append([]int{}, seq...)
+					var cl, det string
+					steps := 0
+					cl, det = guard(func() (string, string) { c, d, _, s := runPlain(n, sq); steps = s; return c, d })
+					ops := []string{fmt.Sprintf("children=%d caps=%d", n, capPattern)}
+					for _, k := range sq {
+						ops = append(ops, plainAlpha[k])
+					}
+					ctx.Case(steps, n > 0 && len(sq) > 0, func() string { return fmt.Sprint(ops) })
+					ctx.State(fmt.Sprint(ops))
+					if cl != "" {
+						ctx.Fail(cl, det, ops)
+						return ctx.viol == nil
+					}
+					return true
+				})
+				if ctx.viol != nil {
+					return
 				}
-				ctx.Case(steps, n > 0 && len(sq) > 0, func() string { return fmt.Sprint(ops) })
-				ctx.State(fmt.Sprint(ops))
-				if cl != "" {
-					ctx.Fail(cl, det, ops)
-					return ctx.viol == nil
-				}
-				return true
-			})
+			}
 		}
+		capPattern = 0
 		ctx.Alphabet(plainAlpha...)
 		if !ctx.st.TimedOut && ctx.viol == nil {
 			ctx.DepthDone(depthP)
@@ -311,7 +334,8 @@ func c19Jobs(tier string) []*SeqJob {
 	}
 	plain.Replay = func(ops []string) (string, string) {
 		var n int
-		fmt.Sscanf(ops[0], "children=%d", &n)
+		fmt.Sscanf(ops[0], "children=%d caps=%d", &n, &capPattern)
+		defer func() { capPattern = 0 }()
 		return guard(func() (string, string) { c, d, _, _ := runPlain(n, opIndex(plainAlpha, ops[1:])); return c, d })
 	}
 	cached := &SeqJob{Property: "C19", Name: "cached-fan-out-histories", Shards: 6}
@@ -401,4 +425,62 @@ func compareLogs(got, want []string, n int) (string, string) {
 		}
 	}
 	return "", ""
+}
+
+// c19Scenarios: calls made on one multi reporter from two goroutines at the same time
+// still reach every child exactly once each.
+func c19Scenarios(tier string) []*Scenario {
+	var out []*Scenario
+	for _, cached := range []bool{false, true} {
+		cached := cached
+		sc := &Scenario{Property: "C19", Name: "F-concurrent-calls-" + b2s(cached)}
+		sc.Body = func(x *Run) {
+			var log []string
+			obj := &rt.Obj{}
+			mu := &sync.Mutex{}
+			var ps []tally.StatsReporter
+			var cs []tally.CachedStatsReporter
+			for i := 0; i < 2; i++ {
+				ch := &mChild{id: i, log: &log, reporting: true, tagging: true, obj: obj, mu: mu}
+				ps, cs = append(ps, ch), append(cs, ch)
+			}
+			var flush func()
+			var report func(v int64)
+			if cached {
+				m := multi.NewMultiCachedReporter(cs...)
+				h := m.AllocateCounter("c", nil)
+				flush, report = m.Flush, h.ReportCount
+			} else {
+				m := multi.NewMultiReporter(ps...)
+				flush, report = m.Flush, func(v int64) { m.ReportCounter("c", nil, v) }
+			}
+			t1 := rt.GoNamed("caller1", func() { flush(); report(1) })
+			t2 := rt.GoNamed("caller2", func() { flush(); report(2) })
+			t1.Join()
+			t2.Join()
+			nf, nc := map[string]int{}, map[string]int{}
+			for _, l := range log {
+				var id int
+				var rest string
+				fmt.Sscanf(l, "child%d %s", &id, &rest)
+				if rest == "flush" {
+					nf[fmt.Sprint(id)]++
+				}
+				if rest == "counter" || (len(l) > 8 && (l[len(l)-7:] == "count 1" || l[len(l)-7:] == "count 2")) {
+					nc[fmt.Sprint(id)]++
+				}
+			}
+			for _, id := range []string{"0", "1"} {
+				if nf[id] != 2 {
+					x.failf("concurrent-flush-not-forwarded-exactly-once", "two Flush calls on the multi reporter, child %s saw %d", id, nf[id])
+				}
+				if nc[id] != 2 {
+					x.failf("concurrent-report-not-forwarded-exactly-once", "two reports on the multi reporter, child %s saw %d", id, nc[id])
+				}
+			}
+		}
+		sc.Check = func(x *Run, o *rt.Outcome) (string, string, string) { return "", "", "ok" }
+		out = append(out, sc)
+	}
+	return out
 }
